@@ -255,11 +255,23 @@ emit_segs(seg_iter_t *seg)
     fputc(']', vt_out);
 }
 
+/* what the USER wrote, when the script says so (fsgtext <text> <n,start,final,arcs as JSON members>): the grammar of
+ * record is then the text's, not what the reader made of it */
+static const char *grammar_annot;
+
 static void
 dump_fsg(fsg_model_t *fsg, const char *kind, int ret)
 {
     int i, first = 1;
     fprintf(vt_out, "{\"e\":\"Grammar\",\"kind\":\"%s\",\"ret\":%d", kind, ret);
+    if (grammar_annot && fsg) {
+        if (d && d->search && ret == 0) {
+            fsg_search_t *fs = (fsg_search_t *)d->search;
+            fprintf(vt_out, ",\"beam\":%d,\"pbeam\":%d,\"wbeam\":%d", (int)fs->beam_orig, (int)fs->pbeam_orig, (int)fs->wbeam_orig);
+        }
+        fprintf(vt_out, ",\"lw_milli\":%d,\"annotated\":true,%s}\n", (int)(fsg_model_lw(fsg) * 1000 + 0.5), grammar_annot);
+        return;
+    }
     if (d && d->search && ret == 0) { /* the beams the search actually uses (scaled log domain) */
         fsg_search_t *fs = (fsg_search_t *)d->search;
         fprintf(vt_out, ",\"beam\":%d,\"pbeam\":%d,\"wbeam\":%d", (int)fs->beam_orig, (int)fs->pbeam_orig, (int)fs->wbeam_orig);
@@ -1242,6 +1254,9 @@ main(int argc, char *argv[])
                 size_t len;
                 char *text = vt_unhex(arg, &len);
                 s3file_t *f1 = s3file_init(text, len), *f2 = s3file_init(text, len);
+                static char annot[1 << 20];
+                if (sscanf(line, "%*s %*s %1048575s", annot) == 1)
+                    grammar_annot = vt_unhex(annot, NULL);
                 g = fsg_model_read_s3file(f1, d->lmath, lw);
                 g2 = g ? fsg_model_read_s3file(f2, d->lmath, lw) : NULL;
                 s3file_free(f1);
@@ -1251,6 +1266,10 @@ main(int argc, char *argv[])
             if (g2)
                 ret = decoder_set_fsg(d, g2); /* consumes g2, whether it succeeds or not (decoder.h) */
             dump_fsg(g, "fsg", ret);
+            if (grammar_annot) {
+                free((void *)grammar_annot);
+                grammar_annot = NULL;
+            }
             if (g)
                 fsg_model_free(g);
         } else if (!strcmp(cmd, "align")) {
